@@ -572,6 +572,13 @@ class RulesMixin:
         # every call made through a contract is recorded (contracts can speak about call order)
         self.traces.setdefault("calls", []).append((fc.qualname.split(":")[1],) + tuple(args))
         self.traces.setdefault("call_kwargs", []).append((fc.qualname.split(":")[1], dict(kwargs or {})))
+        # 'event_clears': for every clear of an event, whether this call had waited on that very
+        # event before (a call that clears an event it was not woken from takes the wake-up away
+        # from whoever is parked on it)
+        if fc.qualname.endswith(":Event.wait") and args:
+            self.traces.setdefault("waited_on", []).append(args[0])
+        if fc.qualname.endswith(":Event.clear") and args:
+            self.traces.setdefault("event_clears", []).append((args[0], any(x is args[0] for x in self.traces.get("waited_on", []))))
         if getattr(self, "clock", None) is not None:
             self.traces.setdefault("call_times", []).append((fc.qualname.split(":")[1], self.clock))
         self.unit_call_requires(fc.qualname.split(":")[1], fr)
